@@ -503,7 +503,28 @@ def bi_id(interp, st, args, kwargs, node):
 
 
 def bi_super(interp, st, args, kwargs, node):
-    return _I().Opaque("super()")
+    I = _I()
+    M = _M()
+    if st.cls is not None and isinstance(st.env.get("self"), Rec) and not args:
+        mro = M.class_mro(interp, I.ClassRef(st.mod, st.cls))
+        if len(mro) > 1:
+            return I.SuperRef(st.env["self"], mro[1])
+    return I.Opaque("super()")
+
+
+def super_dataclass_init(interp, st, sref, args, kwargs, node):
+    """super().__init__(...) where the base is a dataclass without an explicit __init__: the generated initialiser stores the fields
+    on self and runs the base's __post_init__ (trusted meaning of @dataclass; __post_init__ goes through its contract / real body)"""
+    M = _M()
+    _trust("dataclass-generated __init__: stores its arguments as fields, then runs __post_init__")
+    obj = M.construct(interp, st, sref.base, args, kwargs, node)
+    me = st.env.get("self")
+    if not isinstance(obj, Rec) or not isinstance(me, Rec):
+        raise Outside("super().__init__ on a non-record", node)
+    fields = dict(me.fields)
+    fields.update(obj.fields)
+    interp.assign(ast.Name(id="self", ctx=ast.Store()), Rec(me.cls, fields), st)
+    return None
 
 
 BUILTINS = {
@@ -1785,3 +1806,31 @@ def np_split(interp, st, args, kwargs, node):
 
 
 LIBFUNCS.update({"np.cumsum": np_cumsum, "np.split": np_split})
+
+
+def bi_filter(interp, st, args, kwargs, node):
+    """filter(pred, s) over a set of integer tuples: the subset where pred holds (consumed by set(...)); pred is evaluated on an
+    arbitrary member (a bound variable), so calls inside it go through the callees' contracts for every member at once"""
+    M = _M()
+    I = _I()
+    pred, s = args
+    if not isinstance(s, CSet):
+        raise Outside("filter() over anything but a set of coordinate tuples", node)
+    ks = [z3.Int(V.fresh_name("fm")) for _ in range(s.arity)]
+    st.guards.append(s.contains(ks))
+    for k in ks:
+        st.binders.append(k)
+    try:
+        p = I.truthy_value(interp, st, M.call_value(interp, st, pred, [tuple(ks)], {}, node))
+    finally:
+        st.guards.pop()
+        for _ in ks:
+            st.binders.pop()
+    out = CSet.fresh("filtered", s.arity)
+    st.assume(z3.ForAll(ks, out.contains(ks) == z3.And(s.contains(ks), to_z3(p))))
+    st.assume(z3.And(out.card >= 0, out.card <= to_z3(s.card)))
+    st.assume((out.card == 0) == z3.ForAll(ks, z3.Not(out.contains(ks))))
+    return out
+
+
+BUILTINS["filter"] = bi_filter
